@@ -23,7 +23,7 @@ for f in sorted(glob.glob(os.path.join(VERIF, 'props', 'C[0-9][0-9].py'))):
         level_note=P.LEVEL_NOTE,
         technique=P.TECHNIQUE))
     for e in P.ENGINES:
-        en = engines.setdefault(e['name'], dict(name=e['name'], path='harness/%s + coq/%s + ocaml/%s' % (e['c_sources'][0], e['extract'], e['driver']),
+        en = engines.setdefault(e['name'], dict(name=e['name'], path='harness/%s + coq/%s + ocaml/%s' % (e.get('runner') or e['c_sources'][0], e['extract'], e['driver']),
                                                 serves_properties=[], kind_free_text='Coq model extracted to OCaml, run against the C built from /repo with ASan+UBSan'))
         en['serves_properties'].append(P.ID)
 man = dict(
